@@ -145,7 +145,7 @@ func (r *Run) c08Burst(i int) {
 }
 
 func runC05(r *Run) {
-	r.Result.Rule = "scenario = history of table events through a real server: inbound queries and matched responses from (address, ID) pairs with IDs aimed at buckets 0..8 and 159 (so buckets fill and evictions happen), own ID, zero ID, same ID at many addresses, same address under many IDs, read-only senders, unsolicited responses, AddNode, questionable-ping time-outs, simulated elapsed time; table snapshot checked after every event; non-trivial = history that fills at least one bucket"
+	r.Result.Rule = "scenario = history of table events through a real server: inbound queries and matched responses from (address, ID) pairs with IDs aimed at buckets 0..8 and 159 (so buckets fill and evictions happen), own ID, zero ID, same ID at many addresses, same address under many IDs, read-only senders, unsolicited responses, AddNode, questionable-ping time-outs, simulated elapsed time; with and without the security extension, with a public address and a configured ID; table snapshot checked after every event; non-trivial = history that fills at least one bucket"
 	n := r.n(40, 1000)
 	for i := 0; i < n; i++ {
 		o := srvOpts{noSecurity: i%5 != 4}
@@ -164,7 +164,7 @@ func runC05(r *Run) {
 }
 
 func runC09(r *Run) {
-	r.Result.Rule = "scenario = routing table built through traffic (good, questionable (aged), never-responded, bad (failed ping) entries, IPv4/IPv6/v4-mapped, across buckets) then find_node/get_peers/get queries with every want combination from both families and targets in every populated bucket incl. the own ID; the decoded nodes/nodes6 are checked against the table snapshot; non-trivial = reply that lists at least one node"
+	r.Result.Rule = "scenario = routing table built through traffic (good, questionable (aged), never-responded, bad (failed ping) entries, IPv4/IPv6/v4-mapped, across buckets; known addresses returning under another ID; infohashes with stored peers of one family only) then find_node/get_peers/get queries with every want combination from both families and targets in every populated bucket incl. the own ID; the decoded nodes/nodes6 are checked against the table snapshot; non-trivial = reply that lists at least one node"
 	n := r.n(25, 600)
 	for i := 0; i < n; i++ {
 		sc := r.newSrvScen(srvOpts{noSecurity: true, peerStore: i%3 == 0, defaultWant: i%2 == 1})
